@@ -6,6 +6,7 @@ From Coq Require Import List ZArith Bool.
 From Echo Require Import Mw.RateLimit Mw.RateLimitProofs.
 Import ListNotations.
 Open Scope Z_scope.
+From Echo Require Import PropLemmas.C18.
 
 (* refinement: for every timed history over any identifiers (non-decreasing clock), the in-memory
    store with expiry/cleanup answers exactly like the specification "one bucket per identifier,
@@ -14,8 +15,7 @@ Theorem C18_store_refines_spec : forall a b B E, 0 <= a -> 0 < b -> 0 <= B -> 0 
   forall (ident : Type) (id_eqb : ident -> ident -> bool), (forall x y, id_eqb x y = true <-> x = y) ->
   forall evs now0, ev_sorted_from ident now0 evs ->
   store_run a b B E ident id_eqb (store0 ident now0) evs = spec_run a b B ident id_eqb (fun _ => None) evs.
-Proof. intros a b B E Ha Hb HB HE HEr ident id_eqb Hspec evs now0 Hs.
-  eapply store_refines_spec; eauto. apply Sim0. Qed.
+Proof. exact C18_store_refines_spec_l. Qed.
 Print Assumptions C18_store_refines_spec.
 
 (* isolation: the answers given to identifier x are a function of x's own sub-history only: those
@@ -28,7 +28,7 @@ Theorem C18_isolation : forall a b B E, 0 <= a -> 0 < b -> 0 <= B -> 0 <= E -> B
   | [] => []
   | t0 :: _ => run a b B (fresh b B t0) (sub_history ident id_eqb x evs)
   end.
-Proof. intros; eapply store_per_identifier; eauto. Qed.
+Proof. exact C18_isolation_l. Qed.
 Print Assumptions C18_isolation.
 
 (* the bound, for every window of that single-bucket history: the requests admitted after t1
@@ -36,7 +36,7 @@ Print Assumptions C18_isolation.
 Theorem C18_window : forall a b B, 0 <= a -> 0 < b -> 0 <= B ->
   forall pre win now0 t1, sorted_from now0 pre -> lastt now0 pre <= t1 -> sorted_from t1 win ->
   count (run a b B (final a b B (fresh b B now0) pre) win) * b <= B * b + a * (lastt t1 win - t1).
-Proof. intros a b B Ha Hb HB. exact (every_window a b B Ha Hb HB). Qed.
+Proof. exact C18_window_l. Qed.
 Print Assumptions C18_window.
 
 (* a request is refused only when the identifier's own allowance is used up *)
@@ -47,7 +47,7 @@ Print Assumptions C18_refuse_only_if_empty.
 
 (* the middleware runs the handler exactly for admitted requests and answers 429 otherwise *)
 Theorem C18_middleware : forall admitted, middleware admitted = if admitted then (0, true) else (429, false).
-Proof. reflexivity. Qed.
+Proof. exact C18_middleware_l. Qed.
 Print Assumptions C18_middleware.
 
 (* non-vacuity: rate 1 token / 4 ticks, burst 2: two at once, refusal, refill after 4 ticks *)
